@@ -156,9 +156,13 @@ PAIRED_HTML_COMMENT = AtomicPattern(
 )
 
 # HTML/XML tags: <tag>, </tag>
+# An HTML open tag in CommonMark's sense: a tag name, then attributes whose values are
+# unquoted or quoted. A "<" followed by prose ("a <b and `x - y > z`") is not a tag and
+# must not swallow what follows it up to the next ">".
+_HTML_ATTRIBUTE = r"""\s+[a-zA-Z_:][a-zA-Z0-9_.:-]*(?:\s*=\s*(?:[^\s"'=<>`]+|'[^']*'|"[^"]*"))?"""
 HTML_OPEN_TAG = AtomicPattern(
     name="html_open_tag",
-    pattern=r"<[a-zA-Z][^>]*>",
+    pattern=rf"<[a-zA-Z][a-zA-Z0-9-]*(?:{_HTML_ATTRIBUTE})*\s*/?>",
     open_delim="",
     close_delim="",
     open_re="",
